@@ -16,7 +16,12 @@ for name in $LIST; do
   git -C "$REPO" apply $PWD/$d/patch.diff || { echo "PATCH-DOES-NOT-APPLY $name"; fail=1; continue; }
   bad=""
   for id in C04 C05 C09 C11 C13 C15 C16; do
-    out=$(VERIF_NO_EVIDENCE=1 ./check $id quick 2>&1); rc=$?
+    # BENIGN_TIER=thorough BENIGN_RUNS=<n> runs the thorough generators and the thorough tier's required-probe gate on a reduced budget
+    if [ -n "${BENIGN_TIER:-}" ]; then
+      out=$(VERIF_NO_EVIDENCE=1 VERIF_RUNS=${BENIGN_RUNS:-300000} ./check $id $BENIGN_TIER 2>&1); rc=$?
+    else
+      out=$(VERIF_NO_EVIDENCE=1 ./check $id quick 2>&1); rc=$?
+    fi
     if [ $rc -ne 0 ]; then
       sig=$(echo "$out" | sed -n 's/^violation: run=[0-9]* signature=\(.*\) class=.*/\1/p' | head -1)
       he=$(echo "$out" | grep -m1 "HARNESS-ERROR" )
